@@ -1,15 +1,14 @@
 import core
 REAL_AXIOMS = ['ClassicalDedekindReals.sig_forall_dec', 'ClassicalDedekindReals.sig_not_dec',
-               'FunctionalExtensionality.functional_extensionality_dep',
-               'Axioms']  # runner/core.py's Print-Assumptions parser also matches the header line "Axioms:"
+               'FunctionalExtensionality.functional_extensionality_dep']
 META = {
     'id': 'C11', 'props_v': 'Props/C11.v', 'bin': 'c10', 'profile': 'dev', 'hooks': True, 'groups': ['Trust'],
     'harness_args': ['--mode', 'c11'],
     'allowed_axioms': REAL_AXIOMS,
     'design_ref': 'DESIGN.md section 5, C10/C11; design/C11.md',
-    'technique': 'Coq proof over exact reals (closed-set mass decays by (1-alpha) per repaired round; exit analysis of the loop: 4 / 7 / 50 rounds or L1 convergence) of the generic EigenTrust definition in Model/Trust.v + constants regenerated from source + differential correspondence of the binary64 instance against the real EigenTrustEngine on generated attack graphs (cliques, stars, chains, rings, self-loops; honest nodes without statements), with the theorem conclusions evaluated on the implementation\'s outputs',
-    'level_text': 'Theorems (Props/C11.v), for every history, every anchor count >= 1, every set S that is disjoint from the anchors and receives no positive statement from outside, equal multipliers: one round keeps at most (1-alpha) of the mass of S; the final mass is <= (3/5)^rounds * |S|/n; <= |S|/(7n) whenever >= 4 rounds ran or |S|/n >= 1.05e-3 (C11_sybil_seventh_partial), hence unconditionally for n <= 950 (C11_sybil_seventh_950); < 0.1% for n <= 100; every anchor keeps alpha/|A| of the total whatever anybody states. The unconditional statement (C11_sybil_seventh_full) is kept visible and REFUTED over the reals (C11_sybil_seventh_refuted: anchor + one self-rating identity + 4998 silent honest nodes, loop leaves after 2 rounds with 0.36 of the share); the same history is run on the real engine and on the binary64 model in every check (known-finding class c11-early-exit).',
-    'level_note': 'Axioms reported by Print Assumptions: the classical real-number axioms of the Coq standard library (ClassicalDedekindReals.sig_forall_dec, ClassicalDedekindReals.sig_not_dec, FunctionalExtensionality.functional_extensionality_dep). Trusted/modelled, not verified: IEEE-754 rounding gap between the R instance (theorems) and the binary64 instance (execution, compared with the Rust engine within 1e-9; threshold-ambiguous cases discarded and counted); ln oracle (only through equal multipliers); decay factor as input. Partial: the 1/7 bound carries the explicit side condition for networks of more than 950 nodes with a Sybil share below 0.105%; outside it the property as written is false (theorem C11_sybil_seventh_refuted, recorded as finding c11-early-exit).',
+    'technique': "Coq proof over exact reals (closed-set mass decays by (1-alpha) per repaired round; exit analysis of the loop: every exit - convergence from the 4th round on, the n>100 / n>500 cut-offs, 50 rounds - is taken after at least 4 rounds) of the generic EigenTrust definition in Model/Trust.v + constants regenerated from source (including MIN_ITERATIONS and its guard) + differential correspondence of the binary64 instance against the real EigenTrustEngine on generated attack graphs (cliques, stars, chains, rings, self-loops; honest nodes without statements), with the theorem conclusions evaluated on the implementation's outputs",
+    'level_text': 'Theorems (Props/C11.v), for every history, every network size, every anchor count >= 1, every set S that is disjoint from the anchors and receives no positive statement from outside, equal multipliers: one round keeps at most (1-alpha) of the mass of S; at least 4 rounds always run (C11_at_least_four_rounds); the final mass is <= (3/5)^rounds * |S|/n and hence <= |S|/(7n) UNCONDITIONALLY (C11_sybil_seventh, the property as written); < 0.1% for n <= 100; every anchor keeps alpha/|A| of the total whatever anybody states. C11_old_exit_rule_refuted: for a faithful copy of the loop without the 4-round minimum the bound is false (5000-node star, 2 rounds, 0.36 of the share) - the reason for repair F11b.',
+    'level_note': 'Axioms reported by Print Assumptions: the classical real-number axioms of the Coq standard library (ClassicalDedekindReals.sig_forall_dec, FunctionalExtensionality.functional_extensionality_dep; ClassicalDedekindReals.sig_not_dec allow-listed as well). Trusted/modelled, not verified: IEEE-754 rounding gap between the R instance (theorems) and the binary64 instance (execution, compared with the Rust engine within 1e-9; threshold-ambiguous cases discarded and counted); ln oracle (only through equal multipliers); decay factor as input. Nothing partial: the side condition of the earlier version is gone with repair F11b.',
     'assumptions': ['equal statistics = equal multi-factor multipliers on all known nodes', 'at least one pre-trusted anchor',
                     'ln1p >= 0 on the counter values in use', 'decay factor d >= 0 passed as input'],
     'trusted': ['Lib/GenericField.v instances: the binary64 instance uses Coq PrimFloat primitives as the meaning of rustc f64 arithmetic'],
